@@ -5,6 +5,7 @@ from mir import op_place
 import c10
 
 META = {
+    "thorough_extra": ["client-only", "tls"],
     "level": "other",
     "explanation": "Ordering / pacing mechanisms, decided on the mir_built bodies: (C11.1) FIFO - the only mutators of EyeballSet.queue are push_back / extend / pop_front and of "
                    "SocketAddrs.0 (outside sort_preferred) pop_front / iter_mut / collect; TcpConnecting::connect pushes attempts in pop order; (C11.2) at most once - every value "
